@@ -218,6 +218,41 @@ theorem constNext_rounded_ge_query_exact {u : K} (h : Rounding rnd u) (tn D t : 
     push_neg at hc
     exact hc.le
 
+/-- **strictly later than the previous answer, with every operation rounded**: the only requirement is that the period is not
+absorbed when it is added to the previous answer (`_t_next < fl(_t_next + dt)`) -/
+theorem constNext_rounded_gt_prev {u : K} (h : Rounding rnd u) (tn D t : Fl K rnd) (hD : 0 < D.val)
+    (hna : tn.val < (tn + D).val) : tn.val < (constNext tn D t).val := by
+  rw [constNext_rounded_val]
+  simp only
+  have hA : (tn + D).val = rnd (tn.val + D.val) := rfl
+  rw [hA] at hna
+  by_cases hc : rnd (tn.val + D.val) ≤ t.val
+  · rw [if_pos hc]
+    -- the catch-up value is at least `a`
+    have hd : 0 ≤ t.val - rnd (tn.val + D.val) := by linarith
+    have hx0 : 0 ≤ rnd (t.val - rnd (tn.val + D.val)) := h.nonneg hd
+    have hq0 : 0 ≤ rnd (rnd (t.val - rnd (tn.val + D.val)) / D.val) := h.nonneg (div_nonneg hx0 hD.le)
+    have hn0 : (0 : K) ≤ ((ceilI (K := Fl K rnd) ((t - (tn + D)) / D) : Int) : K) := by
+      rw [ceilI_rounded]
+      exact le_trans hq0 (Int.le_ceil _)
+    have hnK0 : 0 ≤ rnd ((ceilI (K := Fl K rnd) ((t - (tn + D)) / D) : Int) : K) := h.nonneg hn0
+    have hp0 : 0 ≤ rnd (D.val * rnd ((ceilI (K := Fl K rnd) ((t - (tn + D)) / D) : Int) : K)) :=
+      h.nonneg (mul_nonneg hD.le hnK0)
+    have hb : rnd (tn.val + D.val) ≤
+        rnd (rnd (tn.val + D.val) + rnd (D.val * rnd ((ceilI (K := Fl K rnd) ((t - (tn + D)) / D) : Int) : K))) := by
+      have := h.mono (rnd (tn.val + D.val))
+        (rnd (tn.val + D.val) + rnd (D.val * rnd ((ceilI (K := Fl K rnd) ((t - (tn + D)) / D) : Int) : K))) (by linarith)
+      rwa [h.idem] at this
+    split_ifs with hlt
+    · have := h.mono (rnd (rnd (tn.val + D.val) + rnd (D.val * rnd ((ceilI (K := Fl K rnd) ((t - (tn + D)) / D) : Int) : K))))
+        (rnd (rnd (tn.val + D.val) + rnd (D.val * rnd ((ceilI (K := Fl K rnd) ((t - (tn + D)) / D) : Int) : K))) + D.val)
+        (by linarith)
+      rw [h.idem] at this
+      linarith
+    · linarith
+  · rw [if_neg hc]
+    exact hna
+
 /-- the same for the logarithmic schedule: `next` multiplies the period (rounded) and applies the constant rule -/
 theorem logNext_rounded_ge_query {u : K} (h : Rounding rnd u) (f : Fl K rnd) (st : Fl K rnd × Fl K rnd) (t : Fl K rnd)
     (hD : 0 < (st.1 * f).val) (hT : Rep rnd t.val) :
